@@ -11,6 +11,7 @@ mod c12;
 mod c01model;
 mod c10io;
 mod vp8parse;
+mod vp8predict;
 mod c13;
 mod c10;
 mod c11;
@@ -53,6 +54,7 @@ fn main() {
         "c01model" => c01model::run(tier, seed, out, extra),
         "c10io" => c10io::run(tier, seed, out, extra),
         "vp8parse" => vp8parse::run(tier, seed, out, extra),
+        "vp8predict" => vp8predict::run(tier, seed, out, extra),
         "c13" => c13::run(tier, seed, out, extra),
         "c10" => c10::run(tier, seed, out, extra),
         "c11" => c11::run(tier, seed, out, extra),
